@@ -14,6 +14,7 @@ import Gpa.Model.Logs
 import Gpa.Model.Ebpf
 import Gpa.Model.Attach
 import Gpa.Model.Provision
+import Gpa.Model.TagInodes
 import Gpa.Model.SetupFs
 import Gpa.Model.KeyKeeper
 import Gpa.Model.Secrets
@@ -395,6 +396,36 @@ def stepLine (st : DState) (line : String) : DState × String :=
           (st, match Attach.mountPath (.listed (targets.map fun t => ⟨t, []⟩)) with
             | some m => "ok " ++ Hex.encode (Text.utf8 m.target.toList)
             | none => "err")
+      | none => (st, "bad-op")
+  | ["rulechange", cur, new] =>
+      -- the messages of one endpoint's rule change: current id, id of the new item ("-" = no item)
+      match Hex.decodeString cur, (if new == "-" then some none else (Hex.decodeString new).map some) with
+      | some c, some n =>
+          let item : Option KeyKeeper.RuleItem := n.map fun i => ⟨i.toList, KeyKeeper.sEnforce, 0⟩
+          let msgs := (KeyKeeper.changeProgram ⟨c.toList, none⟩ item).map fun
+            | .setId _ => "setId"
+            | .setRules _ => "setRules"
+          (st, if msgs.isEmpty then "-" else ",".intercalate msgs)
+      | _, _ => (st, "bad-op")
+  | "taginodes" :: ts =>
+      -- o<w> = open the temp file, w<w>:<hex> = write through the handle, r = rename; answer: safe flag, publications oldest first, tag
+      let parse (t : String) : Option TagInodes.Op :=
+        match t.toList with
+        | ['r'] => some .rename
+        | 'o' :: w => (String.ofList w).toNat?.map .openTmp
+        | 'w' :: rest =>
+            match (String.ofList rest).splitOn ":" with
+            | [w, h] => match w.toNat?, Hex.decode h with
+              | some w, some b => some (.write w b)
+              | _, _ => none
+            | _ => none
+        | _ => none
+      match ts.mapM parse with
+      | some ops =>
+          let s := TagInodes.run TagInodes.St.init ops
+          let pubs := s.frozen.reverse.map fun p => s!"{p.1}:{Hex.encode p.2}"
+          (st, s!"safe={if decide (TagInodes.Safe s) then 1 else 0} pubs={",".intercalate pubs} tag=" ++
+            (match s.tagContent with | some c => "x" ++ Hex.encode c | none => "-"))
       | none => (st, "bad-op")
   | ["prov", "new"] => ({ st with prov := Provision.Global.init }, showProv Provision.Global.init)
   | ["prov", "spawn", "ready", f] =>
